@@ -254,6 +254,9 @@ class Interp:
             dk = n.get('dk') or ''
             if 'Variant' in dk or dk == 'Ctor':
                 return V(n['def'])
+            if dk.startswith(('Const', 'AssocConst')) and n.get('def') in self.F.hir and \
+                    str(self.F.hir[n['def']].get('kind')).startswith(('Const', 'AssocConst')):
+                return self.ev(self.F.hir[n['def']]['body'], {})
             return self.extern('path:' + str(n.get('def')), None, [], n)
         if k == 'tup':
             return ('T', tuple(self.ev(x, env) for x in n['a']))
@@ -261,10 +264,16 @@ class Interp:
             return self.ev(n['a'], env)
         if k == 'cast':
             return self.ev(n['a'], env)
+        if k == 'array':
+            return [self.ev(x, env) for x in n['a']]
         if k == 'struct':
-            fields = {f[0]: self.ev(f[1], env) for f in n['fields']}
-            if n.get('base') is not None or n.get('rest') is not None:
-                raise Undecidable('struct update syntax')
+            fields = {}
+            if n.get('base') is not None:
+                base = self.ev(n['base'], env) if isinstance(n['base'], dict) else None
+                if not isinstance(base, MutStruct) or base.path != n['p']['def']:
+                    raise Undecidable('struct update syntax')
+                fields.update(base.fields)
+            fields.update({f[0]: self.ev(f[1], env) for f in n['fields']})
             dk = n['p'].get('dk') or ''
             return MutStruct(n['p']['def'], fields, variant='Variant' in dk)
         if k == 'call':
@@ -275,7 +284,17 @@ class Interp:
             args = [self.ev(x, env) for x in n['a']]
             if n.get('ctor'):
                 return V(n['ctor']['def'], *args)
-            return self.extern(n.get('def') or n.get('decl'), None, args, n)
+            nm = n.get('def') or n.get('decl')
+            if nm in ('alloc::vec::Vec::<T>::with_capacity', 'alloc::vec::Vec::<T>::new'):
+                return []
+            # the expansion of vec![a, b, ..]
+            if nm == 'alloc::boxed::Box::<T>::new_uninit' and not args:
+                return ('O', 'uninit-box')
+            if nm == 'alloc::intrinsics::write_box_via_move' and len(args) == 2 and args[0] == ('O', 'uninit-box') and isinstance(args[1], list):
+                return args[1]
+            if nm == 'alloc::boxed::box_assume_init_into_vec_unsafe' and len(args) == 1 and isinstance(args[0], list):
+                return args[0]
+            return self.extern(nm, None, args, n)
         if k == 'mcall':
             recv = self.ev(n['recv'], env)
             args = [self.ev(x, env) for x in n['a']]
@@ -378,6 +397,15 @@ class Interp:
             return ('T', ())
         if k == 'closure':
             return ('C', n, env)
+        if k == 'await':
+            return self.ev(n['e'], env)       # the awaited call is answered by extern with its output
+        if k == 'try':
+            v = self.ev(n['e'], env)
+            if is_variant(v, 'core::result::Result::Ok') or is_variant(v, SOME):
+                return v[2][0]
+            if is_variant(v, 'core::result::Result::Err') or is_variant(v, NONE):
+                raise _Return(v)
+            raise Undecidable('`?` on %r' % (v,))
         if k == 'letexpr':
             return self.bind(n['pat'], self.ev(n['init'], env), env)
         raise Undecidable('expression kind %s' % k)
@@ -466,6 +494,23 @@ class Interp:
             return len(recv) == 0
         if name in ('alloc::vec::Vec::<T, A>::len', 'core::slice::<impl [T]>::len') and isinstance(recv, list):
             return len(recv)
+        if name == 'alloc::vec::Vec::<T, A>::push' and isinstance(recv, list) and len(args) == 1:
+            recv.append(args[0])
+            return ('T', ())
+        if name == 'core::str::<impl str>::chars' and isinstance(recv, str):
+            return ('I', list(recv))
+        decl = n.get('decl') or ''
+        if isinstance(recv, tuple) and len(recv) == 2 and recv[0] == 'I':
+            if decl == 'core::iter::traits::iterator::Iterator::count':
+                return len(recv[1])
+            if decl == 'core::iter::traits::iterator::Iterator::map' and len(args) == 1 and args[0][0] == 'C':
+                return ('I', [self.call_closure(args[0], [x]) for x in recv[1]])
+            if decl == 'core::iter::traits::iterator::Iterator::collect':
+                return list(recv[1])
+        if decl == 'core::iter::traits::collect::Extend::extend' and isinstance(recv, list) and len(args) == 1 and \
+                isinstance(args[0], tuple) and args[0][0] == 'I':
+            recv.extend(args[0][1])
+            return ('T', ())
         return self.extern(name, recv, args, n)
 
 
@@ -487,6 +532,96 @@ def _one(F, pred, what):
 def _hloc(F, fn, node=None):
     h = F.hir[fn]
     return '%s:%s' % (h['file'], (node or {}).get('line') or h['line'])
+
+
+# ---- conditional constant propagation over a MIR body (helper the engine lacks) ------------
+_NAC = 'NAC'
+
+
+def _const_of(o):
+    if 'cp' in o or 'mv' in o:
+        return None
+    c = str(o.get('c'))
+    if c == 'true':
+        return 1
+    if c == 'false':
+        return 0
+    m = re.match(r'^(-?\d+)_[iu](8|16|32|64|128|size)$', c)
+    return int(m.group(1)) if m else _NAC
+
+
+def _reachable_under(body, arg_consts, call_consts, site_consts=None, removed_edges=()):
+    """Blocks reachable when the given argument locals hold the given integer constants and
+    calls to the given functions (or the calls ending the given blocks: site_consts {block: value})
+    return the given constants; removed_edges are never taken. Whole-local copies and constants
+    are propagated, switches on known values follow only the matching edge, everything else is
+    unknown (all edges)."""
+    n = len(body.blocks)
+    # locals that are ever mutably borrowed can change behind our back: never tracked
+    escaped = {s['rv']['pl']['l'] for _, _, s in body.stmts()
+               if s['k'] == 'assign' and s['rv']['k'] in ('ref', 'rawptr') and s['rv'].get('mut')}
+    env_in = [None] * n            # None = not reached yet; else {local: const}, absent = unknown
+    env_in[0] = {k: v for k, v in arg_consts.items() if k not in escaped}
+    work = [0]
+    reached = set()
+
+    def val(env, o):
+        c = _const_of(o)
+        if c is not None:
+            return c
+        p = Q.operand_place(o)
+        if p.get('p'):
+            return _NAC
+        return env.get(p['l'], _NAC)
+    while work:
+        b = work.pop()
+        reached.add(b)
+        env = dict(env_in[b])
+        for s in body.blocks[b]['s']:
+            if s['k'] == 'assign':
+                l = s['lhs']['l']
+                if s['lhs'].get('p'):
+                    env.pop(l, None)
+                    continue
+                rv = s['rv']
+                v = val(env, rv['o']) if rv['k'] == 'use' else _NAC
+                if rv['k'] == 'unop' and rv.get('op') == 'Not' and rv.get('ta') == 'bool':
+                    v = val(env, rv['o'])
+                    v = (1 - v) if v in (0, 1) else _NAC
+                if v == _NAC or l in escaped:
+                    env.pop(l, None)
+                else:
+                    env[l] = v
+            elif s['k'] == 'setdiscr':
+                env.pop(s['lhs']['l'], None)
+        t = body.blocks[b]['t']
+        succs = body.succ(b)
+        if t['k'] == 'call':
+            l = t['dest']['l']
+            env.pop(l, None)
+            for nm in Q.callee_names(t):
+                if nm in call_consts and not t['dest'].get('p') and l not in escaped:
+                    env[l] = call_consts[nm]
+            if site_consts and b in site_consts and not t['dest'].get('p') and l not in escaped:
+                env[l] = site_consts[b]
+        elif t['k'] == 'switch':
+            v = val(env, t['d'])
+            if v != _NAC:
+                tgt = [x[1] for x in t['ts'] if x[0] == v]
+                succs = [tgt[0]] if tgt else [t['else']]
+        for s2 in succs:
+            if (b, s2) in removed_edges:
+                continue
+            old = env_in[s2]
+            if old is None:
+                env_in[s2] = dict(env)
+                work.append(s2)
+            else:
+                new = {k: v for k, v in old.items() if env.get(k, _NAC) == v}
+                if new != old:
+                    env_in[s2] = new
+                    work.append(s2)
+    return reached
 
 
 # =====================================================================================
@@ -1262,6 +1397,7 @@ def r4(cx):
     switch_edges = {(b, tgt) for b, labels in mod_switch.items() for tgt, labs in labels.items()
                     if ('variant', 'Switch') in labs}
     is_none_blocks = set()
+    option_tests = {}
     for b, j, s in aggs:
         cx.site('%s: ErrorCause::UnsetParameter at %s' % (body.fn, body.loc(s)))
         conds = Q.dominating_conditions(F, body, du, b)
@@ -1295,11 +1431,11 @@ def r4(cx):
                         sides.append(g.get('variant'))
                 if sorted(sides) == ['Off', 'get(Unset)']:
                     option_off = True
-        not_switch = False
-        for sb, labels in mod_switch.items():
-            for tgt, labs in labels.items():
-                if ('variant', 'Switch') not in labs and Q.edge_dominates(body, sb, tgt, b):
-                    not_switch = True
+                    option_tests[org['b']] = 1 if want else 0
+        # with a switch modifier (only the Switch edge of every test of self.modifier is taken) the error is unreachable
+        non_switch_edges = {(sb, tgt) for sb, labels in mod_switch.items() for tgt, labs in labels.items()
+                            if ('variant', 'Switch') not in labs}
+        not_switch = b not in _reachable_under(body, {}, {}, removed_edges=non_switch_edges)
         if not unset_value:
             cx.violation(PARAM_EXPAND, 'unguarded:value-unset', 'the unset-parameter error is not restricted to value.is_none(): set '
                          'parameters would be rejected under nounset', loc=body.loc(s))
@@ -1315,12 +1451,20 @@ def r4(cx):
     cx.floor(len(later), 3, 'length/trim sites in ParamRef::expand')
     for b, t in later:
         cx.site('%s: %s at %s' % (body.fn, pp.callee(t).split('::')[-1], body.loc(t)))
-    if is_none_blocks and later:
-        p = Q.must_pass(body, [0], is_none_blocks, goal_blocks={b for b, _ in later}, removed_edges=switch_edges)
-        if p:
-            cx.violation(PARAM_EXPAND, 'modifier-before-nounset', 'a length or trim modifier is applied before the nounset test: '
-                         '${#x} of an unset x yields 0 instead of an error under `set -u`',
-                         loc=body.loc(body.term(p[-1])), path=Q.render_path(body, p))
+    if is_none_blocks and option_tests and later:
+        # conditional constant propagation: with no switch, the value unset and the option off, the expansion must
+        # end in the error before any length / trim code runs (independent of how the condition is written)
+        site = {b: 1 for b in is_none_blocks}
+        site.update(option_tests)
+        live = _reachable_under(body, {}, {}, site_consts=site, removed_edges=switch_edges)
+        for b, t in later:
+            if b in live:
+                cx.violation(PARAM_EXPAND, 'modifier-before-nounset', 'a length or trim modifier is applied before the nounset test: '
+                             '${#x} of an unset x yields 0 instead of an error under `set -u`', loc=body.loc(t))
+                break
+        if not any(b in live for b, j, s in aggs):
+            cx.violation(PARAM_EXPAND, 'nounset-unreachable', 'the unset-parameter error cannot be reached for an unset value with '
+                         'the option off', loc=body.loc(aggs[0][2]))
     cx.sample({'function': body.fn, 'modifier_tests': sorted(mod_switch), 'switch_edges_pruned': sorted(switch_edges)})
 
 
@@ -1332,31 +1476,24 @@ ANY = None
 # root function (regex) -> what the module is, and the attribute triples (origin, is_quoted, is_quoting[, value])
 # it may build; 'required' triples must all be present (a producer that stops marking is a violation too)
 PRODUCERS = [
-    (r'^yash_semantics::expansion::initial::param::to_field$', 'parameter expansion result',
+    (r'^yash_semantics::expansion::initial::param::(?!switch::|trim::|resolve::)', 'a parameter expansion result',
      [('SoftExpansion', Fa, Fa)]),
-    (r'^yash_semantics::expansion::initial::arith::expand$', 'arithmetic expansion result',
+    (r'^yash_semantics::expansion::initial::arith::', 'an arithmetic expansion result',
      [('SoftExpansion', Fa, Fa)]),
-    (r'^yash_semantics::expansion::initial::command_subst::expand_common$', 'command substitution result',
+    (r'^yash_semantics::expansion::initial::command_subst::', 'a command substitution result',
      [('SoftExpansion', Fa, Fa)]),
-    (r'^yash_semantics::expansion::phrase::Phrase::ifs_join$', 'separator inserted when joining $*',
+    (r'^yash_semantics::expansion::phrase::', 'the separator inserted when joining $*',
      [('SoftExpansion', Fa, Fa)]),
-    (r'^yash_semantics::expansion::initial::tilde::finish$', 'tilde expansion result (never split, never a pattern)',
+    (r'^yash_semantics::expansion::initial::tilde::', 'a tilde expansion result (never split, never a pattern)',
      [('HardExpansion', Fa, Fa), ('HardExpansion', Fa, T, "'\"'")]),
-    (r'^yash_semantics::expansion::initial::word::single_quote$', 'single-quoted content',
-     [('Literal', T, Fa)]),
-    (r'^yash_semantics::expansion::initial::word::dollar_single_quote$', 'dollar-single-quoted content',
-     [('Literal', T, Fa)]),
-    (r'^yash_semantics::expansion::initial::word::SINGLE_QUOTE$', "the quoting ' itself", [('Literal', Fa, T, "'\\''")]),
-    (r'^yash_semantics::expansion::initial::word::dollar_single_quote::DOLLAR$', 'the quoting $ of $\'..\'', [('Literal', Fa, T, "'$'")]),
-    (r'^yash_semantics::expansion::initial::word::double_quote::QUOTE$', 'the quoting " itself', [('Literal', Fa, T, "'\"'")]),
-    (r'^yash_semantics::expansion::initial::word::double_quote$', 'a single character inside double quotes',
-     [(('copy', 'origin'), T, ('copy', 'is_quoting'), ('copy', 'value'))]),
-    (r'^yash_semantics::expansion::initial::text::<impl yash_semantics::expansion::initial::Expand<S> for yash_syntax::syntax::TextUnit>::expand$',
-     'literal character / backslash escape',
+    (r'^yash_semantics::expansion::initial::word::', 'quoted text and quotation marks of a word',
+     [('Literal', T, Fa),                                   # content of '...' and $'...'
+      ('Literal', Fa, T, "'\\''"), ('Literal', Fa, T, "'$'"), ('Literal', Fa, T, "'\"'"),   # the marks themselves
+      (('copy', 'origin'), T, ('copy', 'is_quoting'), ('copy', 'value'))]),                  # a character inside "..."
+    (r'^yash_semantics::expansion::initial::text::', 'a literal character / a backslash escape',
      [('Literal', Fa, Fa), ('Literal', Fa, T, "'\\\\'"), ('Literal', T, Fa)]),
-    (r'^yash_builtin::read::input::quoted$', 'read: character after a backslash', [('SoftExpansion', T, Fa)]),
-    (r'^yash_builtin::read::input::quoting$', 'read: the backslash', [('SoftExpansion', Fa, T)]),
-    (r'^yash_builtin::read::input::plain$', 'read: ordinary character', [('SoftExpansion', Fa, Fa)]),
+    (r'^yash_builtin::read::input::', 'a character of the line read by `read`',
+     [('SoftExpansion', T, Fa), ('SoftExpansion', Fa, T), ('SoftExpansion', Fa, Fa)]),
 ]
 # the only code allowed to change attributes after construction: function -> {field: written value}
 ATTR_WRITERS = {
@@ -1816,3 +1953,159 @@ def r7(cx):
         if keep is not (c != 'IfsWhitespace'):
             cx.violation(READ_ASSIGN, 'remainder-predicate:%s' % c, 'when trimming the remainder for the last variable, a %s character is '
                          '%s' % (c, 'kept as the end' if keep else 'trimmed'), loc=_hloc(F, READ_ASSIGN, cnode[0]))
+
+
+# =====================================================================================
+# C01.R5b - the quoting forms, evaluated
+# =====================================================================================
+PHRASE = 'yash_semantics::expansion::phrase::Phrase'
+OK = 'core::result::Result::Ok'
+ERR = 'core::result::Result::Err'
+TEXTUNIT_EXPAND = INIT + 'text::<impl ' + INIT + 'Expand<S> for yash_syntax::syntax::TextUnit>::expand'
+WORDUNIT_EXPAND = INIT + 'word::<impl ' + INIT + 'Expand<S> for yash_syntax::syntax::WordUnit>::expand'
+
+
+def _ac(value, origin, quoted, quoting):
+    return ('S', ATTRCHAR, tuple(sorted({'value': value, 'origin': V(ORIGIN + '::' + origin), 'is_quoted': quoted,
+                                         'is_quoting': quoting}.items())))
+
+
+def _show_chars(v):
+    out = []
+    for c in v:
+        if isinstance(c, tuple) and c and c[0] == 'S':
+            d = dict(c[2])
+            out.append('%r/%s%s%s' % (d['value'], d['origin'][1].split('::')[-1], '/quoted' if d['is_quoted'] else '',
+                                      '/quoting' if d['is_quoting'] else ''))
+        else:
+            out.append(repr(c))
+    return '[' + ', '.join(out) + ']'
+
+
+def _arm_for(F, it, fn, adt_variant_value):
+    h = F.hir_of(fn)
+    ms = [m for m in H.matches_in(_async_block(h)) if re.sub(r'^&(mut )?', '', (m.get('sty') or '')) == adt_variant_value[1].rsplit('::', 1)[0]]
+    if len(ms) != 1:
+        raise AnchorMissing('%s: expected one match over %s' % (fn, adt_variant_value[1].rsplit('::', 1)[0]))
+    for arm in ms[0]['arms']:
+        env = {}
+        if it.bind(arm['pat'], adt_variant_value, env):
+            if arm.get('guard') is not None:
+                raise Undecidable('guarded arm')
+            return arm, env
+    raise AnchorMissing('%s: no arm for %s' % (fn, adt_variant_value[1]))
+
+
+@RS.rule('C01.R5b', 'K-TABLE', "quoting forms evaluated: '..', $'..', backslash, literal characters and \"..\" mark exactly their content as quoted")
+def r5b(cx):
+    F = cx.F
+    it = Interp(F, _no_extern('quoting form'))
+    samples = ['', 'a', ' *', "a'$\\"]
+    word = INIT + 'word::'
+    for fn, marks in ((word + 'single_quote', ["'"]), (word + 'dollar_single_quote', ['$', "'"])):
+        cx.fn(fn)
+        for s_ in samples:
+            r = freeze(it.call_fn(fn, [s_]))
+            want = V(PHRASE + '::Field', tuple([_ac(m, 'Literal', False, True) for m in marks] +
+                                               [_ac(c, 'Literal', True, False) for c in s_] + [_ac("'", 'Literal', False, True)]))
+            cx.cellcount(1)
+            if r != want:
+                got = _show_chars(r[2][0]) if is_variant(r) and r[2] and isinstance(r[2][0], tuple) else _short(r)
+                cx.violation(fn, 'form:%r' % s_, '%s(%r) yields %s, expected %s: the quotation marks must be quoting characters and every '
+                             'enclosed character quoted' % (fn.split('::')[-1], s_, got, _show_chars(want[2][0])), loc=_hloc(F, fn))
+    fn = INIT + 'param::to_field'
+    cx.fn(fn)
+    for s_ in samples:
+        r = freeze(it.call_fn(fn, [s_]))
+        want = tuple(_ac(c, 'SoftExpansion', False, False) for c in s_)
+        cx.cellcount(1)
+        if r != want:
+            cx.violation(fn, 'form:%r' % s_, 'to_field(%r) yields %s, expected %s' % (s_, _show_chars(r) if isinstance(r, tuple) else r,
+                                                                                     _show_chars(want)), loc=_hloc(F, fn))
+    # TextUnit: literal character and backslash escape
+    cx.fn(TEXTUNIT_EXPAND)
+    TU = 'yash_syntax::syntax::TextUnit::'
+    for ch in ('a', ' ', '\\', '*'):
+        for variant, want in (('Literal', V(OK, V(PHRASE + '::Char', _ac(ch, 'Literal', False, False)))),
+                              ('Backslashed', V(OK, V(PHRASE + '::Field', (_ac('\\', 'Literal', False, True), _ac(ch, 'Literal', True, False)))))):
+            arm, env = _arm_for(F, it, TEXTUNIT_EXPAND, V(TU + variant, ch))
+            r = freeze(it.ev(arm['body'], env))
+            cx.cellcount(1)
+            if r != want:
+                cx.violation(TEXTUNIT_EXPAND, 'unit:%s:%r' % (variant, ch), 'TextUnit::%s(%r) expands to %s, expected %s'
+                             % (variant, ch, _short(r), _short(want)), loc=_hloc(F, TEXTUNIT_EXPAND, arm))
+    # delegation of the other units
+    deleg = {
+        TEXTUNIT_EXPAND: ('yash_syntax::syntax::TextUnit', {
+            'RawParam': [re.compile(r'param::ParamRef<.*Expand<S>>::expand$')], 'BracedParam': [re.compile(r'param::ParamRef<.*Expand<S>>::expand$')],
+            'CommandSubst': [INIT + 'command_subst::expand'], 'Backquote': [INIT + 'command_subst::expand'],
+            'Arith': [INIT + 'arith::expand']}),
+        WORDUNIT_EXPAND: ('yash_syntax::syntax::WordUnit', {
+            'Unquoted': [TEXTUNIT_EXPAND], 'SingleQuote': [word + 'single_quote'], 'DollarSingleQuote': [word + 'dollar_single_quote'],
+            'DoubleQuote': [re.compile(r'Expand<S> for yash_syntax::syntax::Text>::expand$'), word + 'double_quote'],
+            'Tilde': [INIT + 'tilde::expand']}),
+    }
+    for fn, (adt, table) in deleg.items():
+        cx.fn(fn)
+        h = F.hir_of(fn)
+        ms = [m for m in H.matches_in(_async_block(h)) if re.sub(r'^&(mut )?', '', (m.get('sty') or '')) == adt]
+        cx.require(len(ms) == 1, '%s: match over %s not found' % (fn, adt))
+        for vname in _variants(F, adt):
+            if vname not in table:
+                if vname in ('Literal', 'Backslashed'):
+                    continue
+                cx.violation(fn, 'unit-unknown:%s' % vname, '%s::%s has no reviewed expansion' % (adt, vname), loc=_hloc(F, fn))
+                continue
+            i, arm = H.first_matching_arm(ms[0], ('variant', '%s::%s' % (adt, vname), None))
+            cx.require(i is not None, '%s: arm for %s not decidable' % (fn, vname))
+            cx.cellcount(1)
+            for pat in table[vname]:
+                if not H.calls(arm['body'], [pat]):
+                    cx.violation(fn, 'unit:%s' % vname, '%s::%s is not expanded by %s' % (adt.split('::')[-1], vname,
+                                 pat.pattern if hasattr(pat, 'pattern') else pat), loc=_hloc(F, fn, arm))
+    # "..." : expanded in a non-splitting context (so that "$*" is joined), context restored on success and on error,
+    # and every resulting character marked by double_quote
+    log = []
+    WU = 'yash_syntax::syntax::WordUnit::'
+    for will_split in (False, True):
+        for outcome in ('ok', 'err'):
+            envv = MutStruct(INIT + 'Env', {'will_split': will_split, 'inner': ('O', 'inner')})
+            del log[:]
+
+            def extern(name, recv, args, node, envv=envv, outcome=outcome):
+                if re.search(r'Expand<S> for yash_syntax::syntax::Text>::expand$', name or ''):
+                    log.append(('expand', envv.fields['will_split']))
+                    return V(OK, ('O', 'phrase')) if outcome == 'ok' else V(ERR, ('O', 'error'))
+                if name == word + 'double_quote':
+                    log.append(('double_quote', args[0]))
+                    return ('T', ())
+                raise Undecidable('DoubleQuote arm: call of %s is not modelled' % name)
+            it2 = Interp(F, extern)
+            arm, env = _arm_for(F, it2, WORDUNIT_EXPAND, V(WU + 'DoubleQuote', ('O', 'text')))
+            # the arm refers to the (re-bound) `env` parameter of the async fn: bind every free local of that type
+            hh = F.hir_of(WORDUNIT_EXPAND)
+            for ty, ids in _params_by_type(hh).items():
+                if 'initial::Env' in (ty or ''):
+                    for i_ in ids:
+                        env[i_] = envv
+            try:
+                r = it2.ev(arm['body'], env)
+            except _Return as ret:
+                r = ret.v
+            cx.cellcount(1)
+            cell = 'will_split=%s/%s' % (will_split, outcome)
+            exp = [e for e in log if e[0] == 'expand']
+            if len(exp) != 1 or exp[0][1] is not False:
+                cx.violation(WORDUNIT_EXPAND, 'dq-context:' + cell, 'the text inside double quotes is expanded with will_split=%s: '
+                             '"$*" would not be joined into one field' % (exp[0][1] if exp else 'n/a'), loc=_hloc(F, WORDUNIT_EXPAND, arm))
+            if envv.fields['will_split'] is not will_split:
+                cx.violation(WORDUNIT_EXPAND, 'dq-restore:' + cell, 'after a double-quoted part (%s) the splitting context is %s instead of '
+                             'the previous %s: a following unquoted $* is joined / not joined wrongly'
+                             % (outcome, envv.fields['will_split'], will_split), loc=_hloc(F, WORDUNIT_EXPAND, arm))
+            marked = [e for e in log if e[0] == 'double_quote']
+            if outcome == 'ok' and (len(marked) != 1 or marked[0][1] != ('O', 'phrase') or freeze(r) != V(OK, ('O', 'phrase'))):
+                cx.violation(WORDUNIT_EXPAND, 'dq-mark:' + cell, 'the phrase expanded inside double quotes is not passed through '
+                             'double_quote before it is returned', loc=_hloc(F, WORDUNIT_EXPAND, arm))
+            if outcome == 'err' and freeze(r) != V(ERR, ('O', 'error')):
+                cx.violation(WORDUNIT_EXPAND, 'dq-error:' + cell, 'an expansion error inside double quotes is not propagated',
+                             loc=_hloc(F, WORDUNIT_EXPAND, arm))
